@@ -13,6 +13,7 @@ import numpy as np
 from .. import indlib
 from .c13 import job_env  # noqa: F401  (same worker modes)
 
+CRASH_IS_VIOLATION = True     # a worker dying from a signal while it runs indicator code is a finding, not noise
 PROP = 'C15'
 RULE = ('(indicator, parameters, series) triples: window functions compared at every index with a full window; recursive smoothers '
         'in their recurrence step at every index after the seed and in value once (1-alpha)^(i-seed) < 1e-10; ma(matype=k) vs the k-th '
@@ -363,6 +364,34 @@ def run_job(job):
                     if np.any(np.abs(lhs - rhs) > 1e-5 * 100):
                         i = int(np.flatnonzero(np.abs(lhs - rhs) > 1e-3)[0]) + lo_a + 1
                         J.bad('adx:recurrence', f'adx[{i}] = {y[i]!r}, (adx_prev (p-1) + dx)/p = {rhs[i - lo_a - 1]!r}')
+                # ADX step from an independent DX (strict Wilder rules: a candle whose high rises and whose low falls by the same
+                # amount has no directional movement on either side), on every kind of series incl. tie-prone ones
+                if n2 > 2 * p + 5:
+                    cL = Xl[:, 2]
+                    trr = np.concatenate(([0.0], np.maximum.reduce([hL[1:] - lL[1:], np.abs(hL[1:] - cL[:-1]), np.abs(lL[1:] - cL[:-1])])))
+                    rp0, rm0 = np.nan_to_num(rp), np.nan_to_num(rm)
+
+                    def wsum(x_):
+                        out_ = np.full(n2, np.nan)
+                        out_[p] = x_[1:p + 1].sum()
+                        for i_ in range(p + 1, n2):
+                            out_[i_] = out_[i_ - 1] - out_[i_ - 1] / p + x_[i_]
+                        return out_
+                    st_, sp_, sm2 = wsum(trr), wsum(rp0), wsum(rm0)
+                    with np.errstate(invalid='ignore', divide='ignore'):
+                        dip = np.where(st_ != 0, 100 * sp_ / st_, 0.0)
+                        dim = np.where(st_ != 0, 100 * sm2 / st_, 0.0)
+                        dx_ref = np.where(dip + dim != 0, 100 * np.abs(dip - dim) / (dip + dim), 0.0)
+                    y = np.asarray(ad, dtype=float)
+                    s0 = 2 * p + 1
+                    J.c('adx_step_checks')
+                    lhs = y[s0:]
+                    rhs = (y[s0 - 1:-1] * (p - 1) + dx_ref[s0:]) / p
+                    okk = np.isfinite(lhs) & np.isfinite(rhs)
+                    if np.any(np.abs(lhs[okk] - rhs[okk]) > 1e-6 * 100):
+                        i = int(np.flatnonzero(okk & (np.abs(lhs - rhs) > 1e-6 * 100))[0]) + s0
+                        J.bad('adx:step_from_reference_dx', f'adx[{i}] = {y[i]!r}, (adx[{i - 1}] (p-1) + DX_ref[{i}])/p = {rhs[i - s0]!r} '
+                              f'(DX_ref {dx_ref[i]!r}, period {p})', index=i)
                 kc = ta.keltner(Xl, p, 2, 1, source_type=st, sequential=True)
                 J.same('keltner:middle=ema', kc.middleband, np.asarray(e, dtype=float), xls, tol=1e-9)
                 atr_ref = r_wilder(trl, p, p - 1)
@@ -454,7 +483,7 @@ def run_job(job):
 def make_jobs(tier, seed):
     rng = random.Random(150000 + seed)
     jobs = []
-    kinds = ['walk', 'trend', 'constant', 'monotone', 'alternating', 'huge', 'tiny', 'tiny', 'flat', 'spikes', 'gappy', 'lattice', 'zerovol']
+    kinds = ['walk', 'trend', 'constant', 'monotone', 'alternating', 'huge', 'tiny', 'tiny', 'flat', 'spikes', 'gappy', 'lattice', 'zerovol', 'outside']
     plan = {'window': (96, 24), 'recursive': (32, 6), 'ma': (24, 16), 'homogeneity': (24, 16)} if tier == 'quick' else \
         {'window': (3600, 60), 'recursive': (1440, 12), 'ma': (900, 40), 'homogeneity': (900, 40)}
     for group, (njobs, n) in plan.items():
